@@ -1,6 +1,7 @@
 (* Concrete model of iceoryx2-bb/container/src/slotmap.rs (MetaSlotMap), field for field, as
-   the code is NOW (with the fix: commits 1f4a6fa, b46c587 key >= capacity checks; 426f98f
-   claim_index advances the head; 801b953 acquire_next_free_index clears `next`):
+   the code is NOW (with the fix: commits 1f4a6fa, b46c587, c891c8c key >= capacity checks;
+   426f98f claim_index advances the head; 801b953 acquire_next_free_index clears `next`;
+   6ffc44e a zero-capacity map starts with head = INVALID):
      idx_to_data            : MetaVec<usize>          -> i2d   (INVALID = usize::MAX is None)
      idx_to_data_free_list  : MetaVec<FreeListEntry>  -> flist (previous, next; INVALID is None)
      data                   : MetaVec<Option<T>>      -> sdata
@@ -35,7 +36,8 @@ Definition geti {A} (l : list A) (i : N) : res A :=
 Definition seti {A} (l : list A) (i : N) (x : A) : res (list A) :=
   if N.ltb i (lenN l) then Val (updN l i x) else Panic.
 
-(* SlotMap::new / RelocatableSlotMap::init: head = 0 unconditionally, then
+(* SlotMap::new / RelocatableSlotMap::init: head = if capacity == 0 { INVALID } else { 0 }
+   (fix: 6ffc44e), then
    initialize_data_structures pushes, for n in 0..capacity: INVALID, None, n into the queue,
    FreeListEntry { previous: n-1 or INVALID, next: n+1 or INVALID }.  The queue after pushing
    0..capacity-1 into an empty one: start = len = capacity, data[n] = n. *)
@@ -46,7 +48,7 @@ Definition sm_new (c : N) : slotmap :=
                                fnext := if Nat.ltb (S k) n then Some (N.of_nat (S k)) else None |}) (seq 0 n);
      sdata := repeat None n;
      dnf := {| start := c; len := c; cap := c; data := map N.of_nat (seq 0 n) |};
-     fhead := Some 0;
+     fhead := if N.eqb c 0 then None else Some 0;
      smlen := 0;
      smcap := c |}.
 
@@ -161,16 +163,18 @@ Definition sm_remove (m : slotmap) (key : N) : res (slotmap * obs * list N) :=
     end
   end.
 
-(* get_impl *)
+(* get_impl / get_mut_impl: fix: c891c8c, key >= idx_to_data.len() -> None *)
 Definition sm_get (m : slotmap) (key : N) : res obs :=
+  if N.leb (lenN (i2d m)) key then Val (OO None) else
   di <- geti (i2d m) key ;;
   match di with
   | None => Val (OO None)
   | Some n => v <- geti (sdata m) n ;; match v with Some x => Val (OO (Some x)) | None => Panic end
   end.
 
-(* contains_impl *)
+(* contains_impl: fix: c891c8c, key < idx_to_data.len() && .. *)
 Definition sm_contains (m : slotmap) (key : N) : res obs :=
+  if N.leb (lenN (i2d m)) key then Val (OB false) else
   di <- geti (i2d m) key ;; Val (OB (match di with Some _ => true | None => false end)).
 
 (* Iter: next_available_key_after, keys ascending; the listing is flattened [k1; v1; k2; v2; ..] *)
@@ -215,11 +219,7 @@ Definition sm_step (m : slotmap) (o : mop) : slotmap * obs * list N :=
 (* ---- the reference: a finite map key -> value over the keys 0..capacity-1 (as a list of
    options indexed by the key) together with the order in which free keys are handed out
    (`insert` returns the key that the free list yields: initially 0,1,2,..; a removed key is
-   reused first).  dev = false is the reference of the property; dev = true reproduces the
-   deviations of the code as it is now (reported as candidate defects):
-     (a) get / contains with key >= capacity panic (documented: None / false);
-     (b) capacity 0: the head is 0 instead of INVALID, so insert panics (index out of bounds)
-         instead of returning None and next_free_key returns Some(0) instead of None. *)
+   reused first).  A key outside 0..capacity-1 is simply not contained. *)
 Record smap := { mcap : N; mvals : list (option N); mfree : list N }.
 Definition smap_new (c : N) : smap :=
   {| mcap := c; mvals := repeat None (N.to_nat c); mfree := map N.of_nat (seq 0 (N.to_nat c)) |}.
@@ -235,10 +235,9 @@ Fixpoint listing (l : list (option N)) (k : N) : list N :=
   | Some x :: t => k :: x :: listing t (k + 1)
   end.
 
-Definition smap_step (dev : bool) (s : smap) (o : mop) : smap * obs * list N :=
+Definition smap_step (s : smap) (o : mop) : smap * obs * list N :=
   match o with
   | MInsert v =>
-    if dev && N.eqb (mcap s) 0 then (s, OP, []) else
     match mfree s with
     | [] => (s, OO None, [v])
     | k :: r => ({| mcap := mcap s; mvals := updN (mvals s) k (Some v); mfree := r |}, OO (Some k), [])
@@ -253,11 +252,10 @@ Definition smap_step (dev : bool) (s : smap) (o : mop) : smap * obs * list N :=
     | None => (s, OO None, [])
     end
   | MGet k =>
-    if N.ltb k (mcap s) then (s, OO (mget s k), []) else (s, if dev then OP else OO None, [])
+    if N.ltb k (mcap s) then (s, OO (mget s k), []) else (s, OO None, [])
   | MContains k =>
-    if N.ltb k (mcap s) then (s, OB (is_some (mget s k)), []) else (s, if dev then OP else OB false, [])
-  | MNextFree =>
-    if dev && N.eqb (mcap s) 0 then (s, OO (Some 0), []) else (s, OO (hd_error (mfree s)), [])
+    if N.ltb k (mcap s) then (s, OB (is_some (mget s k)), []) else (s, OB false, [])
+  | MNextFree => (s, OO (hd_error (mfree s)), [])
   | MIter => (s, OL (listing (mvals s) 0), [])
   | MLen => (s, ON (lenN (filter is_some (mvals s))), [])
   | MDrop => (s, OUnit, flat_map olist (mvals s))   (* order not fixed by the reference: compared as a multiset *)
